@@ -1,6 +1,6 @@
 (* Correspondence checkers for C08: the lexer model against tera::verif::lex, the specification
    against Tera::render_str, validate against Tera::set_delimiters. *)
-From TeraV Require Import Model.Value Model.Utf8 Model.Lexer Spec.Doc.
+From TeraV Require Import Model.Value Model.Utf8 Model.Lexer Spec.Doc Model.LexerDoc.
 Local Open Scope N_scope.
 
 (* ---- syntactic equality on tokens and spans *)
@@ -47,9 +47,6 @@ Definition check_lex (c : lex_case) : bool :=
   res_eqb (list_eqb stok_eqb) (model_lex c) (x_impl c).
 
 (* ---- family render: Tera::render_str (delimiters set on the instance) of print dl doc *)
-Definition spelling_of (dl : delims) : spelling :=
-  mkSpelling (d_bs dl) (d_be dl) (d_vs dl) (d_ve dl) (d_cs dl) (d_ce dl).
-
 Record render_case := {
   r_dl : delims; r_doc : doc; r_outs : list bytes; r_impl : res bytes }.
 
